@@ -88,6 +88,9 @@ def remove_rules(rep, prog):
     calls = [c for c in S.select("call", qname=q) if c.target == U + "directed_edges"]
     if not calls and parallel_arrays_form(rep, prog, f):
         return
+    if not calls:
+        rep.unk("BIN.remove", fwhere(f), "the existing edges are not obtained from directed_edges(.) nor from np.where(only_directed(.)): not read")
+        return
     if len(calls) != 1 or calls[0].args[0] not in BINS:
         rep.bad("BIN.remove", fwhere(f), "the existing edges are not taken from the 0/1 pattern of A (directed_edges(%s))" % (fmt(calls[0].args[0])[:60] if calls else "-"))
         return
@@ -150,6 +153,10 @@ def add_rules(rep, prog):
     is_for = li["iter"] is not None
     # ---- candidate
     stores = S.select("store", qname=q)
+    if len(stores) > 1:
+        # e.g. set the entry in place and take it back when the graph is no longer a DAG: another way of trying a candidate, not read
+        rep.unk("CAND.store", fwhere(f), "a round stores %d times into the working graph (set and undo?): this way of trying a candidate is not read" % len(stores))
+        return
     if len(stores) != 1:
         rep.bad("CAND.store", fwhere(f), "each round must set exactly one entry of the candidate graph (found %d stores)" % len(stores))
         return
@@ -254,6 +261,9 @@ def add_rules(rep, prog):
     rep.check("GUARD.add", ok, fwhere(f, raises[0].node if raises else None), "ValueError iff no_edges > p(p-1)/2 - |E| (boundary exact, |E| counted on the pattern)",
               "guard is %s" % [sorted(pred_fmt(p) for p in resolve(conj(r.path))) for r in raises])
     rets = S.select("return", qname=q)
+    if len(rets) > 1:
+        rep.unk("RESULT.add", fwhere(f), "add_edges has %d return statements (an early exit?): which of them is guarded by the final count is not read" % len(rets))
+        return
     okr = len(rets) == 1 and rets[0].value == ("after", lid, g)
     asserted = False
     if okr:
